@@ -350,7 +350,9 @@ class Gen:
         w = {"nspaces": nsp, "cells": [], "refs": [], "maxdepth": r.randint(*self.maxdepth)}
         if small_depth:
             w["maxdepth"] = r.randint(3, 6)
-        if self.p_shared_exc and r.random() < self.p_shared_exc:
+        if self.p_shared_exc and not self.fin and r.random() < self.p_shared_exc:
+            # not together with try/finally: raising the exception object that is pending in an enclosing finally
+            # rewrites ITS traceback (CPython), the line numbers of the pending failure are then CPython's business
             w["shared_exc"] = True
         for i in range(r.randint(*self.nrefs)):
             w["refs"].append({"rid": i, "space": r.choice([None] + list(range(nsp))), "val": self.val()})
